@@ -148,8 +148,9 @@ pub fn main(args: &[String]) -> i32 {
     let mut rng = StdRng::seed_from_u64(seed ^ 0xa77);
     let mut agree = 0u64;
     let mods_list: Vec<u32> = vec![0, 16, 2, 64, 256, 16 | 64, 2 | 256];
-    let rates: Vec<Option<f64>> = if tier == "thorough" { vec![None, Some(0.5), Some(0.75), Some(1.3), Some(2.0), Some(0.01), Some(100.0)] } else { vec![None, Some(1.3), Some(0.75)] };
-    let vals: Vec<f32> = if tier == "thorough" { (-4..=24).map(|i| i as f32 * 0.5).collect() } else { vec![-2.0, 0.0, 3.5, 6.5, 9.5, 10.0, 11.0] };
+    let rates: Vec<Option<f64>> = if tier == "thorough" { vec![None, Some(0.5), Some(0.75), Some(1.3), Some(2.0), Some(0.01), Some(100.0)] } else { vec![None, Some(1.3), Some(0.75), Some(2.0), Some(0.5)] };
+    // (values up to the setters' limits of +-20, and effective values beyond 11 / below -10 through the clock rate)
+    let vals: Vec<f32> = if tier == "thorough" { (-40..=40).map(|i| i as f32 * 0.5).collect() } else { vec![-20.0, -7.0, -2.0, 0.0, 3.5, 6.5, 9.5, 10.0, 11.0, 13.5, 20.0] };
     for mode in ["osu", "taiko", "catch", "mania"] {
         let sources: Vec<(&str, String)> = {
             let objs = random_objs(&mut rng, mode, 6);
@@ -171,7 +172,7 @@ pub fn main(args: &[String]) -> i32 {
                             d = d.clock_rate(*r);
                         }
                         // override one or two attributes, both with_mods settings
-                        let wm = k % 2 == 0;
+                        let wm = (k / 4 + k) % 2 == 0;
                         d = match k % 4 {
                             0 => d.ar(x, wm),
                             1 => d.od(x, wm),
